@@ -137,6 +137,15 @@ func dencoStructural(c *Ctx, r2, r3, r4, r5 string) {
 	c.min(r3, 1)
 
 	// R05.4 NextSeparator stop set
+	// the mux feeds the decoded path and the method of the request to the lookup
+	sm := p.Fn("(*rt/middleware/denco.serveMux).ServeHTTP")
+	for _, ci := range callsIn(sm, "(*rt/middleware/denco.serveMux).handler") {
+		_, a := callArgs(ci.Common())
+		isR := vOrigins(oIsValue(paramOf(sm, 1)))
+		okM := vFieldLoad("net/http.Request", "Method", isR)(a[0])
+		okP := vFieldLoad("net/url.URL", "Path", vFieldLoad("net/http.Request", "URL", isR))(a[1])
+		c.obI(r3, ci, "mux-looks-up-decoded-path", okM && okP, "the serve mux looks up r.Method and the decoded r.URL.Path (a percent-encoded separator cannot be matched by a single-segment parameter, static patterns match their decoded spelling)", "the lookup is fed something other than r.URL.Path")
+	}
 	ns := p.Fn("rt/middleware/denco.NextSeparator")
 	nCmp := 0
 	for _, in := range instrs(ns) {
